@@ -1,5 +1,5 @@
 """C02 - accepted language and nesting are those of gherkin.berp; same machine as the siblings."""
-from . import parser_rules as pr
+from . import parser_rules as pr, builder_rules as br
 
 META = {
     "level": "translation_validation",
@@ -22,3 +22,5 @@ def run(rep):
     pr.rule_look(rep)
     pr.rule_glue(rep)
     pr.rule_siblings(rep)
+    br.rule_tags_ast(rep, "C02.attach")
+    br.rule_rw(rep, "C02.rw", "C02.flow")
